@@ -196,3 +196,61 @@ prop("C14",
      "Bounded threads/ops; allocation inside rcu registration is not counted as blocking.",
      "stateless model checking of the implementation: deviation-bounded DFS over a controlled scheduler",
      "DESIGN.md 4/C14")
+
+
+LOCK_FLAGS = ["-fno-access-control"]
+
+prop("C01",
+     [dict(name="C01", src="locks.cpp", cxxflags=["-DMODE_C01"] + LOCK_FLAGS, deadline=dict(quick=100, thorough=1200))],
+     SCHED_RULE + " Instances: guarded, guarded_opt(on) x {mutex, timed_mutex}; shared_guarded, "
+     "shared_guarded_opt(on), ordered_guarded x {mutex, timed_mutex, shared_mutex, shared_timed_mutex}. Alphabet: "
+     "lock+RMW, lock+RMW+unlock(), try_lock, try_lock_for, try_lock_until, load, store, operator=, modify, "
+     "modify(returning) as available for the mutex type. All programs with 2 threads x 1 op, 3 threads x 1 op, "
+     "2+1 ops (thorough: 2+2 ops, 4 threads).",
+     "Oracles: ghost access windows on the wrapped object (payload copy/assign/compare have scheduling points "
+     "inside, so load/store/operator= have observable windows), torn pair, lock model says the handle's thread "
+     "owns the mutex while a non-null handle lives, every history (values seen / written) is linearizable w.r.t. a "
+     "sequential register (=> no lost update), mutex free at the end and a final blocking acquisition succeeds "
+     "(deadlock detector), race detector, arena.",
+     A_COMMON,
+     "Exhaustive deviation-bounded exploration of every small client program mixing the acquisition methods, for "
+     "every wrapper x mutex type, over the real headers.",
+     "Bounded threads/ops.",
+     "stateless model checking of the implementation: deviation-bounded DFS over a controlled scheduler",
+     "DESIGN.md 4/C01")
+
+prop("C02",
+     [dict(name="C02", src="locks.cpp", cxxflags=["-DMODE_C02"] + LOCK_FLAGS, deadline=dict(quick=100, thorough=1200),
+           required_cover=2)],
+     SCHED_RULE + " Instances: shared_guarded, shared_guarded_opt(on), ordered_guarded, deferred_guarded x the four "
+     "mutex types. Alphabet: writer ops (lock+RMW, try_lock, try_lock_for, store, modify, modify_detach, "
+     "modify_async) and reader ops (lock_shared, try_lock_shared, try_lock_shared_for/until, const lock(), read, "
+     "read(returning), load); programs with at least one reader op; plus rendezvous programs (two readers must "
+     "meet inside their shared sections) for shared-capable mutex types.",
+     "Oracles: ghost windows (READ||WRITE and WRITE||WRITE forbidden, READ||READ allowed and required to be "
+     "observed at least once: cover flag), torn pair, value stable under a shared handle, linearizable history, "
+     "rendezvous of two readers terminates in every schedule and try forms never refuse a reader because of a "
+     "reader, functor runs with the lock held, mutex free at the end, race detector.",
+     A_COMMON,
+     "Exhaustive deviation-bounded exploration of every small reader/writer program for every wrapper x mutex type.",
+     "Bounded threads/ops; rwlock modelled with reader preference.",
+     "stateless model checking of the implementation: deviation-bounded DFS over a controlled scheduler",
+     "DESIGN.md 4/C02")
+
+prop("C15",
+     [dict(name="C15", src="locks.cpp", cxxflags=["-DMODE_C15"] + LOCK_FLAGS, deadline=dict(quick=100, thorough=1200))],
+     "Sequential part: every operation sequence up to depth 3 (4 thorough) over the operations x values {0,1,2}, "
+     "checked against a plain variable. Concurrent part: " + SCHED_RULE + " Instances: atomic_guarded (load, store, "
+     "operator=, exchange, compare_exchange), guarded, guarded_opt (both flag values), ordered_guarded (load, "
+     "store, operator=), deferred_guarded (load, modify_detach as writer); 2 threads x 1 op, 3 threads x 1 op, "
+     "2+1 ops.",
+     "Oracles: brute-force linearizability of every call/return history (total-order stamps) against a "
+     "sequential register: exchange returns the value it replaced, compare_exchange succeeds iff current == "
+     "expected and otherwise reports the current value; no returned value is half-written (payload operations "
+     "contain scheduling points); race detector.",
+     A_COMMON,
+     "Exhaustive enumeration of operation sequences plus exhaustive deviation-bounded exploration of concurrent "
+     "histories with a linearizability check.",
+     "Bounded depth/threads/ops/values.",
+     "explicit enumeration of operation sequences + stateless model checking (deviation-bounded DFS) with linearizability checking",
+     "DESIGN.md 4/C15")
